@@ -574,3 +574,273 @@ def _register_svc_vcs():
 
 
 _register_svc_vcs()
+
+
+# ---------------------------------------------------------------------------------------------- Y3 maintenance thread: wrappers and garbage collection
+from flexstack.facilities.local_dynamic_map.ldm_maintenance_thread import LDMMaintenanceThread
+from flexstack.facilities.local_dynamic_map.ldm_maintenance_reactive import LDMMaintenanceReactive
+from flexstack.utils.time_service import TimeService, ITS_EPOCH, ELAPSED_SECONDS
+
+RECS = ["Ra", "Rb", "Rn", "Ru"]          # two stored beforehand, one added, one update content
+
+
+class DictRefS(RefS):
+    """reference to one of a fixed universe of stored dictionaries, observed by content (timestamp, validity, payload)"""
+
+    def __init__(self, recs, leaves):
+        super().__init__(recs)
+        self.leaves = leaves          # per record: [timestamp, validity, payload] terms
+
+    def flat(self, E, v):
+        idx = self.index(E, v)
+        out = []
+        for j in range(3):
+            t = z3.IntVal(0)
+            for k in reversed(range(len(self.objs))):
+                t = z3.If(idx == k + 1, self.leaves[k][j], t)
+            out.append(t)
+        return out
+
+    def width(self):
+        return 3
+
+
+def _maint_env(E, st):
+    import unittest.mock as mock
+    D = DictionaryDataBase()
+    M = LDMMaintenanceThread.__new__(LDMMaintenanceThread)
+    LDMMaintenance.__init__(M, None, D)
+    M.data_containers_lock = threading.Lock()
+    M.stop_event = threading.Event()
+    Do, Mo = E.lift(D), E.lift(M)
+    Mo.fields["data_containers"] = Do
+    from ..facil import logger
+    Mo.fields["logging"] = logger(E)
+    leaves, recs = [], []
+    for t in RECS:
+        ts, tv, pl = z3.Int(f"{t}_timestamp"), z3.Int(f"{t}_validity"), z3.Int(f"{t}_payload")
+        E.assumptions += [ts >= 0, ts <= 2 ** 42, tv >= 0, tv <= 10 ** 6, pl >= 0, pl <= 3]
+        leaves.append([ts, tv, pl])
+        recs.append(SDict([(TRUE, "timestamp", ts, False), (TRUE, "timeValidity", tv, False), (TRUE, "payload", pl, False)]))
+    n0, ka, kb = z3.Int("next_id"), z3.Int("id_a"), z3.Int("id_b")
+    ha, hb = z3.Bool("a_present"), z3.Bool("b_present")
+    E.assumptions += [ka >= 0, ka < kb, kb < n0, n0 <= 1000]
+    keys = [ka, kb, n0]
+    shape = DictRefS(recs, leaves)
+    Do.fields["database"] = SDict([(ha, ka, recs[0], False), (hb, kb, recs[1], False)])
+    Do.fields["_next_id"] = n0
+    flag0 = z3.Int("new_data_flag")
+    E.assumptions += [flag0 >= 0, flag0 <= 1]
+    Mo.fields["new_data_recieved_flag"] = flag0
+    E.share(Do, "database", MapS(keys, shape), "_lock")
+    E.share(Do, "_next_id", IntS(), "_lock")
+    E.share(Mo, "new_data_recieved_flag", IntS(), "data_containers_lock")
+    now = z3.Real("now_s")
+    E.assumptions += [now >= 1.6e9, now <= 2.3e9]
+    E.stubs[TimeService.time] = lambda it, a, k, pc: now
+    # the area-of-maintenance sweep is decided in C12 (and is a recorded finding there); here only the time-validity part of the pass
+    E.stubs[LDMMaintenance.check_and_delete_area_of_maintenance] = lambda it, a, k, pc: []
+    E.stubs[LC.AddDataProviderReq.to_dict] = lambda it, a, k, pc: recs[2]
+    E.stubs[LC.RequestDataObjectsReq.filter_out_by_data_object_type] = lambda it, a, k, pc: a[0]
+    now_its = (z3.ToInt(now) - ITS_EPOCH + ELAPSED_SECONDS) * 1000
+    expired = [lv[1] * 1000 + lv[0] < now_its for lv in leaves]
+    v = {"next_id": n0, "id_a": ka, "id_b": kb, "a_present": ha, "b_present": hb, "new_data_flag": flag0, "now_s": now}
+    for t, lv in zip(RECS, leaves):
+        v.update({f"{t}_timestamp": lv[0], f"{t}_validity": lv[1], f"{t}_payload": lv[2]})
+    st.update(D=D, M=M, Do=Do, Mo=Mo, recs=recs, leaves=leaves, keys=keys, n0=n0, ka=ka, kb=kb, ha=ha, hb=hb, now=now, expired=expired, vars=v, shape=shape,
+              inputs=[now] + [x for lv in leaves for x in lv])
+    return M, Mo
+
+
+def _real_rec(vals, t):
+    return {"timestamp": vals[f"{t}_timestamp"], "timeValidity": vals[f"{t}_validity"], "payload": vals[f"{t}_payload"]}
+
+
+class _RealMaint:
+    def __init__(self, vals):
+        from unittest import mock
+        self.D = DictionaryDataBase()
+        M = LDMMaintenanceThread.__new__(LDMMaintenanceThread)
+        LDMMaintenance.__init__(M, None, self.D)
+        M.data_containers_lock = threading.Lock()
+        M.stop_event = threading.Event()
+        M.check_and_delete_area_of_maintenance = lambda: []
+        self.M = M
+        if vals["a_present"]:
+            self.D.database[vals["id_a"]] = _real_rec(vals, "Ra")
+        if vals["b_present"]:
+            self.D.database[vals["id_b"]] = _real_rec(vals, "Rb")
+        self.D._next_id = vals["next_id"]
+        M.new_data_recieved_flag = vals["new_data_flag"]
+        self.vals = vals
+
+    def state(self):
+        g = object.__getattribute__
+        return (dict(g(self.D, "database")), g(self.D, "_next_id"), g(self.M, "new_data_recieved_flag"))
+
+
+def _now_float(vals):
+    v = vals["now_s"]
+    if isinstance(v, str):
+        from fractions import Fraction
+        return float(Fraction(v.rstrip("?")))
+    return float(v)
+
+
+MAINT_OPS = {
+    "gc": (LDMMaintenanceThread.collect_trash, lambda st: [], lambda R: R.M.collect_trash(), "drop"),
+    "add": (LDMMaintenanceThread.add_provider_data, lambda st: [Obj(LC.AddDataProviderReq, {})],
+            lambda R: R.M.add_provider_data(type("Req", (), {"to_dict": lambda self: _real_rec(R.vals, "Rn")})()), "tok"),
+    "update_a": (LDMMaintenanceThread.update_provider_data, lambda st: [st["ka"], st["recs"][3]], lambda R: R.M.update_provider_data(R.vals["id_a"], _real_rec(R.vals, "Ru")), "drop"),
+    "del_a": (LDMMaintenanceThread.del_provider_data, lambda st: [st["recs"][0]], lambda R: R.M.del_provider_data(_real_rec(R.vals, "Ra")), "drop"),
+    "get_a": (LDMMaintenanceThread.get_provider_data, lambda st: [st["ka"]], lambda R: R.M.get_provider_data(R.vals["id_a"]), "rec"),
+    "all": (LDMMaintenanceThread.get_all_data_containers, lambda st: [], lambda R: R.M.get_all_data_containers(), "recs"),
+    "search": (LDMMaintenanceThread.search_data_containers,
+               lambda st: [Obj(LC.RequestDataObjectsReq, dict(application_id=1, data_object_type=(2,), priority=None, order=None, filter=None))],
+               lambda R: R.M.search_data_containers(LC.RequestDataObjectsReq(application_id=1, data_object_type=(), priority=None, order=None, filter=None)), "recs"),
+    "new_data": (LDMMaintenanceThread.check_new_data_recieved, lambda st: [], lambda R: R.M.check_new_data_recieved(), "tok"),
+}
+
+MAINT = [
+    (("gc", "add", "update_a"), ("quick", "thorough")),
+    (("gc", "del_a", "get_a"), ("quick", "thorough")),
+    (("gc", "all", "add"), ("quick", "thorough")),
+    (("add", "new_data", "new_data'"), ("quick", "thorough")),
+    (("update_a", "del_a", "search"), ("quick", "thorough")),
+    (("gc", "gc'"), ("quick", "thorough")),
+    (("gc", "gc'", "add"), ("thorough",)),
+    (("gc", "update_a", "del_a"), ("thorough",)),
+    (("add", "add'", "all"), ("thorough",)),
+]
+
+
+def _maint_vc(ctx, combo):
+    st = {}
+    tag = "Y3[" + "|".join(combo) + "]"
+    base = lambda nm: nm.rstrip("'")
+
+    def build(E):
+        st.clear()
+        M, Mo = _maint_env(E, st)
+        return dict(threads=[(nm, MAINT_OPS[base(nm)][0], [Mo] + MAINT_OPS[base(nm)][1](st)) for nm in combo],
+                    locks=[M.data_containers_lock, st["D"]._lock], lock_names=["data_containers_lock", "_lock"])
+    il = Ilv(build, unroll=5).run()
+    il.cons = il.encode()
+    E = il.E
+    shape = st["shape"]
+    obs = []
+    for nm in combo:
+        kind = MAINT_OPS[base(nm)][3]
+        r = il.rets[nm][0]
+        if kind == "tok":
+            obs.append(E.tok(r))
+        elif kind == "rec":
+            obs += [z3.If(E.identical(r, None), 1, 0) if not isinstance(E.identical(r, None), bool) else z3.IntVal(int(E.identical(r, None)))] + shape.flat(E, r)
+        elif kind == "recs":
+            obs += ListS(4, shape).flat(E, r)
+    fdb = il.final(st["Do"], "database")
+    obs += fdb + il.final(st["Do"], "_next_id") + il.final(st["Mo"], "new_data_recieved_flag")
+    exc = z3.Or(*[c for nm in combo for c, k in il.rets[nm][1]]) if any(il.rets[nm][1] for nm in combo) else FALSE
+    vars_ = st["vars"]
+    GC_STEPS = ("get_all_data_containers", "del_provider_data")
+
+    def starts_unit(b):
+        """a garbage-collection pass is a sequence of locked steps (snapshot; one removal per lapsed object): each step is atomic in
+        the reference executions, the pass as a whole is not"""
+        return base(b.thread) == "gc" and b.fn in GC_STEPS
+
+    def unit_start_real(name, what):
+        return base(name) == "gc" and what.startswith("acquire data_containers_lock")
+
+    def run_real(vals, order=None):
+        from unittest import mock
+        R = _RealMaint(vals)
+        sched = Scheduler(vals["schedule"]) if order is None else UnitScheduler(order, unit_start_real)
+        und = il.und_names if order is None else set()
+        gate_object(R.D, {"database": "_lock", "_next_id": "_lock"}, sched, und)
+        gate_object(R.M, {"new_data_recieved_flag": "data_containers_lock"}, sched, und)
+        with mock.patch.object(TimeService, "time", staticmethod(lambda: _now_float(vals))):
+            res, sched = run_schedule(sched.order, {nm: (lambda nm=nm: MAINT_OPS[base(nm)][2](R)) for nm in combo}, sched)
+        return R, res, sched
+
+    def view(R, res):
+        return ({nm: res[nm][1] for nm in combo if MAINT_OPS[base(nm)][3] != "drop"}, R.state())
+
+    def replay(vals):
+        R, res, sched = run_real(vals)
+        if sched.failed:
+            return False, "replay scheduler: " + sched.failed
+        errs = [f"{n} raised {r[1]!r}" for n, r in res.items() if r[0] == "raised"]
+        got = view(R, res)
+        explained = []
+        seen = []
+        for units in il.reference_orders(starts_unit):
+            order = [u[0].thread for u in units]
+            if order in seen:
+                continue
+            seen.append(order)
+            R2, res2, s2 = run_real(vals, order)
+            if s2.failed:
+                raise RuntimeError("reference execution did not complete: " + s2.failed)
+            if view(R2, res2) == got:
+                explained.append(order)
+                break
+        bad = bool(errs) or not explained
+        return bad, f"concurrent {combo} from {vals}: results {got[0]}, final store {got[1][0]}, allocator {got[1][1]}, new-data flag {got[1][2]} {errs}; " + \
+            ("explained by no reference execution (operations atomic, a garbage-collection pass as a sequence of atomic locked steps)" if not explained
+             else f"explained by {explained[0]}") + f" (switch points {sched.trace})"
+    feasible(ctx, il, tag + "-some-schedule")
+    keys = st["keys"]
+    at = lambda key: [z3.And(*[z3.Implies(keys[i] == key, c) for i in range(len(keys))]) for c in ()]
+    present_a = fdb[0]
+    if "gc" in [base(n) for n in combo]:
+        feasible(ctx, il, tag + "-gc-can-remove", z3.And(st["ha"], st["expired"][0], z3.Not(present_a)))
+        if not any(base(n) in ("del_a", "update_a") for n in combo):
+            feasible(ctx, il, tag + "-gc-can-keep", z3.And(st["ha"], z3.Not(st["expired"][0]), present_a))
+    solve(ctx, il, tag + "-no-exception", exc, vars=vars_, replay=replay)
+    names = [base(n) for n in combo]
+    if "gc" not in names:
+        solve(ctx, il, tag + "-linearizable", il.not_linearizable(obs, inputs=st["inputs"], starts_unit=starts_unit), vars=vars_, replay=replay,
+              desc="results, final store, allocator and new-data flag equal those of some serial order of the operations")
+        ctx.bound(f"{tag}: {il.n_reference_orders} reference executions")
+    else:
+        ctx.bound(f"{tag}: a garbage-collection pass is a sequence of locked steps, not one atomic operation; with a pass among the actors the VC decides the "
+                  "object-preservation statements below and exception freedom (atomicity of the other operations among themselves: the combinations without a pass)")
+        # whatever the interleaving, every stored object at the end is one of the objects that were stored or written by an operation (nothing invented, nothing duplicated)
+        for ki in range(len(st["keys"])):
+            o = ki * 4
+            legal = z3.Or(*[z3.And(*[fdb[o + 1 + j] == st["leaves"][r][j] for j in range(3)]) for r in range(4)])
+            solve(ctx, il, tag + f"-stored-objects-are-written-ones[{ki}]", z3.And(fdb[o], z3.Not(legal)), vars=vars_, replay=replay)
+        if not any(n in names for n in ("update_a", "del_a")):
+            solve(ctx, il, tag + "-lapsed-object-removed-by-the-pass", z3.And(st["ha"], st["expired"][0], present_a, *[fdb[1 + j] == st["leaves"][0][j] for j in range(3)],
+                                                                            names.count("gc") == 1 and TRUE or TRUE),
+                  vars=vars_, replay=replay, desc="an object that is stored and lapsed when the pass starts is gone when it ends")
+    if "gc" in names and not any(n in names for n in ("update_a", "del_a")):
+        solve(ctx, il, tag + "-valid-object-survives-the-pass", z3.And(st["ha"], z3.Not(st["expired"][0]),
+                                                                         z3.Not(z3.And(present_a, *[fdb[1 + j] == st["leaves"][0][j] for j in range(3)]))),
+              vars=vars_, replay=replay, desc="an object whose validity has not lapsed is still stored, unchanged, after a garbage-collection pass racing with the other operations")
+    if "add" in names:
+        rid = E.tok(il.rets[[n for n in combo if base(n) == "add"][0]][0])
+        off = 2 * 4          # third key (the allocator value) in the flattened map: per key 1 presence + 3 content terms
+        stored_new = z3.And(rid == st["n0"], fdb[off], *[fdb[off + 1 + j] == st["leaves"][2][j] for j in range(3)])
+        if names.count("add") == 1:
+            solve(ctx, il, tag + "-added-object-not-lost", z3.And(z3.Not(st["expired"][2]), z3.Not(stored_new)), vars=vars_, replay=replay,
+                  desc="an object added while the other operations run, and whose validity has not lapsed, is stored under the identifier returned to the provider")
+    no_deadlock(ctx, il, tag, hang=lambda: hangs(lambda: MAINT_OPS[base(combo[0])][2](_RealMaint({k: (False if k.endswith("present") else 0) for k in list(vars_) } | {"now_s": 1.7e9, "next_id": 1}))))
+    bounds_ok(ctx, il, tag)
+    note_blocks(ctx, il, " || ".join(combo) + " on LDMMaintenanceThread over the in-memory back-end")
+    ctx.bound("store: two records under symbolic identifiers (each present or not) with symbolic timestamp / validity / payload, one added record, one update content; "
+              "one symbolic clock instant; operations: " + " || ".join(combo))
+    ctx.stub("area-of-maintenance sweep is a no-op here (decided in C12); TimeService.time returns one symbolic instant; AddDataProviderReq.to_dict returns the added record; "
+             "type selection of an unfiltered search is the identity (C13)")
+
+
+def _register_maint_vcs():
+    for combo, tiers in MAINT:
+        def fn(ctx, combo=combo):
+            _maint_vc(ctx, combo)
+        fn.__doc__ = "linearizability and object-preservation of " + " || ".join(combo) + " on the threaded maintenance"
+        vc("C16", "Y3-maintenance-linearizable[" + "|".join(combo) + "]", tiers)(fn)
+
+
+_register_maint_vcs()
